@@ -122,6 +122,9 @@ class Exec:
         m = re.match(r"^const '(.|\\.|\\u\{[0-9a-f]+\})'$", op)
         if m:
             return ("char", m.group(1))
+        m = re.match(r'^const b"(.*)"$', op, re.S)
+        if m:
+            return ("bytes", m.group(1))           # byte-string constant (e.g. the packed template of format_args!), kept as written
         m = re.match(r'^const "(.*)"$', op, re.S)
         if m:
             return ("str", m.group(1))
